@@ -15,11 +15,13 @@ import threading
 
 
 class Sched(object):
-    def __init__(self, jobs, schedule, target_dir):
+    def __init__(self, jobs, schedule, target_dir, tail_quantum=None):
         self.jobs = jobs
         self.n = len(jobs)
         self.schedule = [(int(t), int(k)) for t, k in schedule]
         self.pos = 0
+        self.tail_quantum = tail_quantum      # after the schedule: round robin with this quantum (None: run to completion)
+        self.rr = 0
         self.sems = [threading.Semaphore(0) for _ in jobs]
         self.done = [False] * self.n
         self.results = [None] * self.n
@@ -37,9 +39,11 @@ class Sched(object):
             if not self.done[t]:
                 self.cur, self.budget = t, max(1, k)
                 return t
-        for t in range(self.n):
+        for i in range(self.n):
+            t = (self.rr + 1 + i) % self.n if self.tail_quantum else i
             if not self.done[t]:
-                self.cur, self.budget = t, 10 ** 9
+                self.rr = t
+                self.cur, self.budget = t, (self.tail_quantum or 10 ** 9)
                 return t
         return None
 
